@@ -568,7 +568,9 @@ func runeAtom(rn rune) string {
 // them). A request equal to such a pattern up to the trailing slash has a slash-adjusted match, but its path
 // is not clean, so no redirect may be issued (C08, C17).
 func runServeDirtyStatic(r *Run, rng *rand.Rand) {
-	patterns := []string{"/a//b/", "/a/../b/", "/c/./d", "/e//f", "/g/h/", "/k/..", "/m/./"}
+	// ... and clean ones whose segments merely begin with dots (".w", "...", "..p" are ordinary segments): the
+	// slash-adjusted request is clean, so the redirect is due
+	patterns := []string{"/a//b/", "/a/../b/", "/c/./d", "/e//f", "/g/h/", "/k/..", "/m/./", "/.w/x/", "/n/.b", "/q/.../", "/o/..p", "/r/.../s/"}
 	rt, err := fox.New(fox.WithRedirectTrailingSlash(true), fox.WithMiddlewareFor(fox.RedirectHandler, redirectProbe), fox.WithNoRouteHandler(specialHandler("noroute", 404)))
 	if err != nil {
 		failTool("fox.New: %v", err)
